@@ -52,6 +52,8 @@ ROOT_TREE = {
     # a file whose absolute path is longer than 255 characters although every component is short enough
     LONGDIR: None, LONGDIR + "/" + "M" * 100: None, LONGDIR + "/" + "M" * 100 + "/" + "N" * 60: None, LONGDIR + "/" + "M" * 100 + "/" + "N" * 60 + "/deep.txt": b"DEEP FILE",
     LONGDIR + "/" + "M" * 100 + "/" + "N" * 60 + "/index.html": b"DEEP INDEX",
+    # names that differ only in Unicode normalisation form are different names (the precomposed "é.txt" is above)
+    "e\u0301.txt": b"DECOMPOSED E", "\u2126.txt": b"OHM SIGN", "\u03a9.txt": b"GREEK OMEGA", "d\u0301ir": None, "d\u0301ir/index.html": b"DECOMPOSED DIR INDEX",
     # a backslash is an ordinary character of a POSIX file name, not a separator
     "back\\slash.txt": b"BACKSLASH NAME", "dir\\f.txt": b"DIR BACKSLASH F",
     # names that already end in .html twice; a directory without an index page but with index.html.html
@@ -154,6 +156,32 @@ class Sandbox:
         elif spelling == "handle404":
             from baize import wsgi as W0, asgi as A0
             args, kw = (self.root,), None
+        elif spelling == "dotted":
+            # the served directory is named relative to a sub-package ("c07outer.inner"); the enclosing package has a directory
+            # of the same name
+            import importlib
+            outer = os.path.join(self.parent, "c07outer")
+            for base, deco in ((os.path.join(outer, "inner", "root"), b""), (os.path.join(outer, "root"), b"DECOY:")):
+                for rel, data in ROOT_TREE.items():
+                    p_ = os.path.join(base, rel)
+                    if data is None:
+                        os.makedirs(p_, exist_ok=True)
+                    elif isinstance(data, bytes):
+                        os.makedirs(os.path.dirname(p_), exist_ok=True)
+                        with open(p_, "wb") as f:
+                            f.write(deco + data)
+            for rel, data in OUTSIDE.items():
+                p_ = os.path.join(outer, "inner", rel)
+                os.makedirs(os.path.dirname(p_), exist_ok=True)
+                with open(p_, "wb") as f:
+                    f.write(data)
+            open(os.path.join(outer, "__init__.py"), "w").close()
+            open(os.path.join(outer, "inner", "__init__.py"), "w").close()
+            _AUDIT["sandbox"] = os.path.realpath(outer)
+            _AUDIT["root"] = os.path.realpath(os.path.join(outer, "inner", "root"))
+            sys.path.insert(0, self.parent)
+            importlib.invalidate_caches()
+            args, kw = ("root",), {"package": "c07outer.inner"}
         elif spelling == "relative":
             os.chdir(self.decoy)
             self.earlier = [W.Files("root"), W.Pages("root"), A.Files("root"), A.Pages("root")]  # same text, other working directory
@@ -183,6 +211,10 @@ class Sandbox:
             if spelling == "package":
                 sys.path.remove(self.parent)
                 sys.modules.pop("c07pkg", None)
+            if spelling == "dotted":
+                sys.path.remove(self.parent)
+                sys.modules.pop("c07outer", None)
+                sys.modules.pop("c07outer.inner", None)
         return out
 
     def close(self):
@@ -335,6 +367,8 @@ def all_paths(depth):
                         seen.add(p)
                         yield p
     deep = "/" + LONGDIR + "/" + "M" * 100 + "/" + "N" * 60
+    for p in ("/e\u0301.txt", "/\u00e9.txt", "/\u2126.txt", "/\u03a9.txt", "/d\u0301ir/", "/d\u0301ir", "/\u1e0dir/", "/\u212b.txt", "/e\u0301"):
+        yield p
     for p in ("/back\\slash.txt", "/dir\\f.txt", "/dir\\index.html", "\\file.txt", "/\\file.txt", "/dir/\\f.txt", "/dir\\", "/..\\secret.txt", "/dir/..\\..\\secret.txt",
               "/drafts/", "/drafts", "/drafts/index", "/drafts/index.html", "/old.html", "/old.html/", "/old.html/.", "/old", "/drafts/note", "/drafts/note.html/.", "/drafts/.", "/drafts/./"):
         yield p
@@ -383,6 +417,36 @@ def chain_family(r, tier):
                     r.violation("chain:wrong-outcome", w, f"{where}: got {got!r:.100}, expected not found")
                 elif want[0] == "redirect" and got[0] != "redirect":
                     r.violation("chain:wrong-outcome", w, f"{where}: got {got!r:.100}, expected a redirect to the same URL plus '/'")
+        # a mount written by the application's author: it rewrites SCRIPT_NAME / PATH_INFO for the call and puts the old values back
+        # as soon as the call has returned (before the server iterates the result)
+        def user_mount(prefix, app):
+            def mw(environ, start_response):
+                old = (environ.get("SCRIPT_NAME", ""), environ.get("PATH_INFO", ""))
+                assert old[1] == prefix or old[1].startswith(prefix + "/")
+                environ["SCRIPT_NAME"], environ["PATH_INFO"] = old[0] + prefix, old[1][len(prefix):]
+                try:
+                    return app(environ, start_response)
+                finally:
+                    environ["SCRIPT_NAME"], environ["PATH_INFO"] = old
+            return mw
+        for kind in ("Files", "Pages"):
+            app = user_mount("/dir", getattr(W, kind)(sb.root))
+            for path in all_paths(2):
+                if not path.startswith("/"):
+                    continue
+                _AUDIT["log"] = []
+                got, res = request(app, "wsgi", "/dir" + path)
+                want = ref(kind, path)
+                r.count("evaluations")
+                r.count("distinct_nontrivial")
+                w = {"spelling": "chain", "iface": "wsgi", "kind": "chain", "path": "/dir" + path, "root": ""}
+                where = f"wsgi {kind} below a user-written mount at /dir (environ restored when the call returns) on {'/dir' + path!r}"
+                ok = (want[0] == "file" and got == ("file", want[1])) or (want[0] == "notfound" and got == ("notfound",)) or (want[0] == "redirect" and got[0] == "redirect") \
+                    or (want[0] in ("file-or-notfound", "any-notfound-or-page") and (got == ("notfound",) or got == ("file", want[1])))
+                if _AUDIT["log"]:
+                    r.violation("opened-outside-directory", w, f"{where} opened a file outside the served directory")
+                elif not ok:
+                    r.violation("chain:user-mount", w, f"{where}: got {got!r:.100}, expected {want!r:.100}")
         r.sample({"chain": "Files -> Subpaths -> Files / Pages", "paths": "all paths of <= 2 segments"})
     finally:
         sb.close()
@@ -390,7 +454,7 @@ def chain_family(r, tier):
 
 def shards(tier, seed):
     n = 8 if tier == "quick" else 32
-    return [("paths", spelling, k, n) for spelling in ("absolute", "relative", "package", "unicode", "handle404") for k in range(n)] + [("threads", "Files"), ("threads", "Pages"), ("chain",)]
+    return [("paths", spelling, k, n) for spelling in ("absolute", "relative", "package", "unicode", "handle404") for k in range(n)] + [("paths", "dotted", k, 2) for k in range(2)] + [("threads", "Files"), ("threads", "Pages"), ("chain",)]
 
 
 def thread_family(r, kind, tier):
